@@ -216,6 +216,19 @@ def mkqsLcp (depth : Nat) (pivot maxLt minGt : Key) (nlt neq ngt : Nat) (lcps : 
   let l1 := if nlt > 0 then setLcp lcps nlt (depth + lcpKeyType maxLt pivot) else lcps
   if ngt > 0 then setLcp l1 (nlt + neq) (depth + lcpKeyType pivot minGt) else l1
 
+/-- the `=` part of an MKQS step: finished when the pivot key contains the terminator, otherwise
+sorted deeper (`insertion_sort_cache<true>` = `insertion_sort` resp. a new `MKQSStep`) -/
+def mkqsEq (env : Env) (rec : Rec) (eq : List Str) (depth : Nat) (pivot : Key) : M Res :=
+  if lowByte pivot = 0 then pure (doneRes eq (depth + lcpKeyDepth pivot))
+  else if eq.length < env.p.inssort then pure (insSort (depth + 8) eq)
+  else rec .mkqs eq (depth + 8)
+
+/-- the `<` / `>` part of an MKQS step -/
+def mkqsSub (env : Env) (rec : Rec) (part : List Str) (depth : Nat) : M Res :=
+  if part.length = 0 then pure { out := [], lcp := [] }
+  else if part.length < env.p.inssort then rec .inscache part depth
+  else rec .mkqs part depth
+
 /-- one `MKQSStep` with the handling of its three parts in `sort_mkqs_cache` -/
 def mkqsBody (env : Env) (rec : Rec) (strs : List Str) (depth : Nat) : M Res := do
   let n := strs.length
@@ -228,16 +241,9 @@ def mkqsBody (env : Env) (rec : Rec) (strs : List Str) (depth : Nat) : M Res := 
   let gt := (sk.filter fun p => pivot < p.2).map (·.1)
   let ltKeys := keys.filter (· < pivot)
   let gtKeys := keys.filter (pivot < ·)
-  let sub (part : List Str) : M Res :=
-    if part.length = 0 then pure { out := [], lcp := [] }
-    else if part.length < env.p.inssort then rec .inscache part depth
-    else rec .mkqs part depth
-  let rlt ← sub lt
-  let req ←
-    if lowByte pivot = 0 then pure (doneRes eq (depth + lcpKeyDepth pivot))
-    else if eq.length < env.p.inssort then pure (insSort (depth + 8) eq)   -- insertion_sort_cache<true>
-    else rec .mkqs eq (depth + 8)
-  let rgt ← sub gt
+  let rlt ← mkqsSub env rec lt depth
+  let req ← mkqsEq env rec eq depth pivot
+  let rgt ← mkqsSub env rec gt depth
   let r := (rlt.append req).append rgt
   let maxLt := ltKeys.foldl (fun a b => if a < b then b else a) 0
   let minGt := gtKeys.foldl (fun a b => if b < a then b else a) (BitVec.allOnes 64)
